@@ -203,7 +203,14 @@ def run():
         if left == right:
             raise Inconclusive("witness %r for family %r does not reproduce" % (w, (law, lhs, rhs)))
         roles = {"law-" + law}
-        if any(R.tree_at_branch_edge(a) for a in asts if a is not None):
+        # attributed to the known superposition finding only if the edge tree wildcards of the two
+        # sides have different (position, superposition) signatures
+        if law == "any-union":
+            lhs_asts = [[("alt", [a for a in asts if a is not None])]] if all(a is not None for a in asts) else [None]
+            rhs_asts = asts
+        else:
+            lhs_asts, rhs_asts = asts[:1], asts[1:]
+        if R.superposition_explains(lhs_asts, rhs_asts):
             roles.add("tree-at-branch-edge")
         rep.candidate(roles, {"short": {"law": law, "lhs": lhs, "rhs": rhs, "path": w,
                                         "lhs_matches": left, "some_rhs_matches": right}})
